@@ -22,6 +22,10 @@ struct Oracle {
     by_tag: BTreeMap<Vec<u8>, Triple>,
     by_key: BTreeMap<Vec<u8>, Triple>,
     points: BTreeSet<BigUint>,
+    /// per triple: shares of BOTH entry points (Message::generate, share_with_local_randomness), alternating
+    both_kinds: BTreeMap<Triple, Vec<sta_rs::Share>>,
+    /// the generator the previous client used (its randomness already sampled once), with its epoch and threshold
+    prev_gen: Option<(MessageGenerator, Vec<u8>, u32)>,
 }
 
 fn show(t: &Triple) -> String {
@@ -108,6 +112,34 @@ impl AOracle for Oracle {
             return Err(Violation::new("c04.not_function", "tag", format!("client {}: tag in Message::generate's report differs from share_with_local_randomness' tag for {}", c.idx, show(&triple))));
         }
         self.insert(ctx, &triple, rnd.to_vec(), mat.tag.to_vec(), mat.key.to_vec(), &format!("client {}", c.idx))?;
+        // the two entry points are two ways to take part in ONE sharing: as soon as the triple has t shares, taken
+        // alternately from Message::generate's reports and from share_with_local_randomness, they must combine
+        if let Some(m) = sta_rs::Message::from_bytes(&s.bytes) {
+            let v = self.both_kinds.entry(triple.clone()).or_default();
+            v.push(m.share);
+            v.push(mat.share.clone());
+            let t = g.threshold as usize;
+            if t >= 2 && v.len() >= t && v.len() < t + 2 {
+                if let Err(e) = sta_rs::share_recover(&v[..t]) {
+                    return Err(Violation::new("c04.not_function", "entry_points_do_not_combine", format!("{} shares of {} taken alternately from Message::generate and share_with_local_randomness do not recover ({}): the two entry points build different sharings for one triple", t, show(&triple), e)));
+                }
+                ctx.stats.probe("shares_of_both_entry_points_combine");
+            }
+        }
+        // a generator whose PUBLIC measurement field is reassigned is a generator for the new measurement
+        if let Some((mut old, oe, ot)) = self.prev_gen.take() {
+            old.x = crate::worlds::a::make_measurement(&g.measurement);
+            let mut r_old = [0u8; 32];
+            old.sample_local_randomness(&mut r_old);
+            let fresh = MessageGenerator::new(crate::worlds::a::make_measurement(&g.measurement), ot, &oe);
+            let mut r_new = [0u8; 32];
+            fresh.sample_local_randomness(&mut r_new);
+            if r_old != r_new {
+                return Err(Violation::new("c04.not_function", "measurement_reassigned", format!("a generator whose public field x was set to {} after it had been used for another measurement derives other randomness than a fresh generator for the same (measurement, epoch, threshold)", hex_short(&g.measurement))));
+            }
+            ctx.stats.probe("reassigned_generator_agrees");
+        }
+        self.prev_gen = Some((mg, g.epoch.clone(), g.threshold));
         // every share has its own evaluation point
         let x2 = layout::parse_share(&mat.share.to_bytes()).map(|p| p.x);
         for x in [Some(pr.share.x.clone()), x2].into_iter().flatten() {
